@@ -174,6 +174,24 @@ pub fn drive_predicates(cx: &mut Ctx) {
             pred_dispatch(&mut cx.tr, d, &pts, &q, s, &perms, "C12 random");
         }
     }
+    // (d) a sweep of scales across the tolerance band: for every lattice unit 2^-4 .. 2^-18 determinants of the same
+    //     tuples move from far above the documented tolerance (1e-15 + 1e-12 |A|) to below it; wherever the spec finds
+    //     them decisive, both kernels must give the exact sign (a dead band wider than documented shows up here)
+    let per_scale = if cx.thorough { 40 } else { 6 };
+    for d in 2..=5usize {
+        for s in (-18..=-4).rev() {
+            for _ in 0..per_scale {
+                if !cx.mine() {
+                    continue;
+                }
+                let hi = max_coord(d);
+                let pts = random_points(&mut r, d, d + 1, hi);
+                let q: Vec<i64> = (0..d).map(|_| r.range(0, hi)).collect();
+                let perms = permutations(d + 1, 6, &mut r);
+                pred_dispatch(&mut cx.tr, d, &pts, &q, s, &perms, "C12 band sweep");
+            }
+        }
+    }
 }
 
 // ---------------------------------------------------------------------------------------
